@@ -14,7 +14,9 @@ with tempfile.TemporaryDirectory() as d:
         "/venv/bin/python", "-m", "pytest", "-ra", "-q", "-p", "no:cacheprovider", "--timeout=900",
         "--continue-on-collection-errors", "--junitxml=" + xmlp,
     ]  # fmt: skip
-    p = subprocess.run(cmd, cwd=repo, stdout=subprocess.PIPE, stderr=subprocess.STDOUT)
+    env = dict(os.environ)
+    env["PYTHONPATH"] = os.path.join(repo, "src")  # the tree under test, not the editable install
+    p = subprocess.run(cmd, cwd=repo, stdout=subprocess.PIPE, stderr=subprocess.STDOUT, env=env)
     tree = ET.parse(xmlp)
 passed = set()
 for tc in tree.iter("testcase"):
